@@ -276,7 +276,9 @@ def check_sig_encoding(sig,flags,forkid=False):
         # IsLowDERSignature: valid encoding already checked
         rs=parse_der_lax(sig[:-1])
         if rs is None: raise ScriptFail("SIG_DER")
-        if rs[1]>N//2: raise ScriptFail("SIG_HIGH_S")
+        # CPubKey::CheckLowS: ecdsa_signature_parse_der_lax turns a signature whose R or S overflows the group order
+        # into the all-zero signature, which secp256k1_ecdsa_signature_normalize does not call high
+        if rs[0]<N and rs[1]<N and rs[1]>N//2: raise ScriptFail("SIG_HIGH_S")
     if flags&STRICTENC:
         ht=sig[-1]&~0x80
         if forkid: ht&=~0x40    # fork-id coins: the fork-id bit is part of every defined hash type
@@ -467,7 +469,8 @@ def eval_script(stack,script,flags,checker,sigversion):
             elif op in (OP_CHECKSIG,OP_CHECKSIGVERIFY):
                 need(2); sig=stack[-2]; pk=stack[-1]
                 code=bytes(script[begincode:])
-                if sigversion==BASE: code,_=find_and_delete(code,push_data(sig))
+                if sigversion==BASE and not (getattr(checker,'forkid_keeps_sig',False) and len(sig) and sig[-1]&0x40):
+                    code,_=find_and_delete(code,push_data(sig))
                 check_sig_encoding(sig,flags,getattr(checker,'forkid',False)); check_pubkey_encoding(pk,flags,sigversion)
                 ok=checker.check_sig(sig,pk,code,sigversion)
                 if not ok and flags&NULLFAIL and len(sig): raise ScriptFail("NULLFAIL")
@@ -490,7 +493,9 @@ def eval_script(stack,script,flags,checker,sigversion):
                 need(i)
                 code=bytes(script[begincode:])
                 for k in range(ns):
-                    if sigversion==BASE: code,_=find_and_delete(code,push_data(stack[-isig-k]))
+                    sk=stack[-isig-k]
+                    if sigversion==BASE and not (getattr(checker,'forkid_keeps_sig',False) and len(sk) and sk[-1]&0x40):
+                        code,_=find_and_delete(code,push_data(sk))
                 ok=True; nsig=ns; nkey=nk
                 while ok and nsig>0:
                     sig=stack[-isig]; pk=stack[-ikey]
